@@ -319,6 +319,8 @@ func runC20(c *runCtx) {
 			}
 		}
 	}
+	// 4. the paginated fields of the served GraphQL API, one request per page
+	runC20Gql(c)
 }
 
 func deref(p *int) any {
